@@ -13,7 +13,7 @@ NAME_POOL = ['x', 'x1', 'xx', 'x_1', 'x_000', 'e5', 'E', 'e', 'j', 'J', 'a', 'b'
 
 FUNCS = ['max', 'min', 'abs', 'sqrt', 'exp', 'log', 'float']
 
-NUMBER_LITERALS = ['0', '1', '2', '3', '10', '1.', '0.', '.5', '0.5', '2.5', '1e5', '1E-3', '1e+5', '1.e2', '.5e1',
+NUMBER_LITERALS = ['0', '1', '2', '3', '10', '1.', '0.', '.5', '0.5', '2.5', '1e5', '1E-3', '1e+5', '1.e2', '.5e1', '1.e5', '2.E3', '3.e0',
                    '0x1F', '0Xff', '0b101', '0o17', '1_000', '1_0.5_0', '1_0e1_0', '00', '007.5', '1.5e-3', '12345678901234567890',
                    '0.1', '0.25', '3.0', '100.', '1e0', '0xe5', '0XE', '1e5_0', '0b1_01', '0.0']
 IMAG_LITERALS = ['2j', '1.5J', '1e5j']
